@@ -1,8 +1,8 @@
 //! Configuration and builders for [`crate::Watchexec`].
 
-use std::{future::Future, pin::pin, sync::Arc, time::Duration};
+use std::{future::Future, sync::Arc, time::Duration};
 
-use tokio::sync::Notify;
+use tokio::sync::watch;
 use tracing::{debug, trace};
 
 use crate::{
@@ -32,7 +32,10 @@ use crate::{
 pub struct Config {
 	/// This is set by the change methods whenever they're called, and notifies Watchexec that it
 	/// should read the configuration again.
-	pub(crate) change_signal: Arc<Notify>,
+	///
+	/// This is a version counter rather than a bare notification, so that a change made while a
+	/// watcher of the config is busy applying the previous one is seen when it next looks.
+	pub(crate) change_signal: Arc<watch::Sender<u64>>,
 
 	/// The main handler to define: what to do when an action is triggered.
 	///
@@ -158,7 +161,7 @@ pub struct Config {
 impl Default for Config {
 	fn default() -> Self {
 		Self {
-			change_signal: Default::default(),
+			change_signal: Arc::new(watch::channel(0).0),
 			action_handler: ChangeableFn::new(ActionReturn::Sync),
 			error_handler: Default::default(),
 			pathset: Default::default(),
@@ -182,7 +185,8 @@ impl Config {
 		reason = "this return can explicitly be ignored"
 	)]
 	pub fn signal_change(&self) -> &Self {
-		self.change_signal.notify_waiters();
+		self.change_signal
+			.send_modify(|version| *version = version.wrapping_add(1));
 		self
 	}
 
@@ -192,7 +196,7 @@ impl Config {
 	/// subsequent one is from a change signal for this Config.
 	#[must_use]
 	pub(crate) fn watch(&self) -> ConfigWatched {
-		ConfigWatched::new(self.change_signal.clone())
+		ConfigWatched::new(self.change_signal.subscribe())
 	}
 
 	/// Set the pathset to be watched.
@@ -272,33 +276,29 @@ impl Config {
 #[derive(Debug)]
 pub(crate) struct ConfigWatched {
 	first_run: bool,
-	notify: Arc<Notify>,
+	changes: watch::Receiver<u64>,
 }
 
 impl ConfigWatched {
-	fn new(notify: Arc<Notify>) -> Self {
-		let notified = notify.notified();
-		pin!(notified).as_mut().enable();
-
+	fn new(changes: watch::Receiver<u64>) -> Self {
 		Self {
 			first_run: true,
-			notify,
+			changes,
 		}
 	}
 
 	pub async fn next(&mut self) {
-		let notified = self.notify.notified();
-		let mut notified = pin!(notified);
-		notified.as_mut().enable();
-
 		if self.first_run {
 			trace!("ConfigWatched: first run");
 			self.first_run = false;
 		} else {
-			trace!(?notified, "ConfigWatched: waiting for change");
-			// there's a bit of a gotcha where any config changes made after a Notified resolves
-			// but before a new one is issued will not be caught. not sure how to fix that yet.
-			notified.await;
+			trace!("ConfigWatched: waiting for change");
+			// resolves at once if the config changed since the last time we looked, including
+			// while the caller was busy applying the previous change
+			if self.changes.changed().await.is_err() {
+				// the config is gone: there will never be another change
+				std::future::pending::<()>().await;
+			}
 		}
 	}
 }
